@@ -1658,8 +1658,15 @@ def _np_sqrt(x):
         return XArray(x.shape, [_np_sqrt(v) for v in x.data])
     if isinstance(x, Poly):
         if x.is_const():
-            return MQ.sqrt(x.const_value())
-        raise AlgError("sqrt of a non-constant polynomial")
+            x = x.const_value()
+        else:
+            raise AlgError("sqrt of a non-constant polynomial")
+    if isinstance(x, MQ) and x.is_rational():
+        x = x.rational()
+    if isinstance(x, (int, Fraction)) and x == 0:
+        return Q(0)
+    if isinstance(x, MQ) and x.is_zero():
+        return Q(0)
     return MQ.sqrt(x)
 
 
@@ -1901,20 +1908,39 @@ def _np_trace(a, **kw):
     return tot
 
 
+def _norm_sqrt(tot):
+    """sqrt for a NORM: exact when the radicand factorises (perfect squares, small surds); otherwise - the radicand is a huge
+    rational such as a sum of squares of the entries of an inverted matrix - a rational approximation to 60 significant
+    digits (norms of that kind scale a tolerance test or a ratio; the approximation is recorded nowhere else)"""
+    try:
+        return _np_sqrt(tot)
+    except AlgError as e:
+        t = exact(tot)
+        if isinstance(t, Poly) and t.is_const():
+            t = t.const_value()
+        if isinstance(t, (int, Fraction)) and t > 0 and "unfactored" in str(e):
+            from math import isqrt
+
+            t = Fraction(t)
+            scale = 10**120
+            return Fraction(isqrt(t.numerator * scale // t.denominator), 10**60)
+        raise
+
+
 def _np_linalg_norm(a, axis=None, keepdims=False, **kw):
     a = XArray.from_nested(a)
     if axis is None and a.ndim == 1:
         tot = 0
         for x in a.data:
             tot = tot + x * x
-        return _np_sqrt(tot)
+        return _norm_sqrt(tot)
     if a.ndim == 2 and axis in (1, -1):
         out = []
         for k in range(a.shape[0]):
             tot = 0
             for x in a.data[k * a.shape[1]:(k + 1) * a.shape[1]]:
                 tot = tot + x * x
-            out.append(_np_sqrt(tot))
+            out.append(_norm_sqrt(tot))
         return XArray((a.shape[0], 1) if keepdims else (a.shape[0],), out)
     if isinstance(axis, (tuple, list)) and a.ndim >= 2:
         # Frobenius norm over several axes
@@ -1929,7 +1955,7 @@ def _np_linalg_norm(a, axis=None, keepdims=False, **kw):
             tot = 0
             for x in m.data[k:k + n]:
                 tot = tot + x * x
-            out.append(_np_sqrt(tot))
+            out.append(_norm_sqrt(tot))
         shape = tuple(a.shape[i] for i in keep)
         res = XArray(shape, out) if shape else out[0]
         if keepdims and shape:
@@ -1946,7 +1972,7 @@ def _np_linalg_norm(a, axis=None, keepdims=False, **kw):
             tot = 0
             for x in m.data[k:k + n]:
                 tot = tot + x * x
-            out.append(_np_sqrt(tot))
+            out.append(_norm_sqrt(tot))
         shape = tuple(a.shape[i] for i in range(a.ndim) if i != ax)
         res = XArray(shape, out)
         if keepdims:
